@@ -38,6 +38,10 @@ impl Watch {
             return;
         }
         for e in evs {
+            if self.lenient {
+                // adversarial input: what the parsers accept and hand on is C04's business
+                break;
+            }
             match e {
                 Ev::Send { pkt, .. } | Ev::Recv { pkt } if pkt.kind == 0 => {
                     self.flag(&[], "harness/undecodable", format!("{what}: {}", pkt.topic));
@@ -86,6 +90,10 @@ impl Watch {
             self.stats.hit("c19_close_requested");
         }
 
+        if self.lenient {
+            // the protocol model is off: follow the library's status
+            self.lenient_resync();
+        }
         // C15: timers
         let disc_both = ctx.local && ctx.st_before == Some(St::Disc) && self.st_after() == St::Disc;
         for e in evs {
